@@ -12,7 +12,7 @@ set_option linter.unusedSimpArgs false
 open NiftyVerif.Iter
 
 variable {K V : Type} [Field K] [LinearOrder K] [IsStrictOrderedRing K] [AddCommGroup V] [Module K V]
-variable (c : Cfg K) (f : V → K × V) (hessp : V → V → V) (ip : V → V → K) (gradnorm : V → K)
+variable (c : Cfg K) (f : V → K × V) (hessp : V → V → V) (ip : V → V → K) (gradnorm : V → K) (nrm : V → K)
 
 theorem ite3_cases' {α : Type} (A B : Prop) [Decidable A] [Decidable B] (x y z : α) (P : α → Prop)
     (hx : P x) (hy : P y) (hz : P z) : P (if A then x else if B then y else z) := by
@@ -144,17 +144,22 @@ theorem lineSearchEager_first (pos : V) (energy : K) (g natg : V) :
 
 /-- with negative curvature along a non-zero gradient the CG of C15 (failure not requested) returns `t·g`,
     `t = ⟨g,g⟩ / (−⟨g,Hg⟩) > 0`, `info = 0` -/
-theorem cgOracle_negcurv (cc : CgRe.Cfg K) (pos g : V) (hip : SymmBilin ip) (hm : Linear (K := K) (hessp pos))
-    (hsa : CgRe.SelfAdj ip (hessp pos)) (hnn : ∀ a, 0 ≤ ip a a) (hraise : cc.raiseNPD = false)
-    (hmax : 0 < CgRe.maxiterEff cc) (hg0 : ip g g ≠ 0) (hcurv : ip g (hessp pos g) < 0) :
-    cgOracle cc ip hessp pos g = ((ip g g / -ip g (hessp pos g)) • g, 0) := by
+theorem maxiterEff_cgCfgOf (base : CgRe.Cfg K) (pa pr : Bool) (a : CgArgs K) :
+    CgRe.maxiterEff (cgCfgOf base pa pr a) = CgRe.maxiterEff base := rfl
+
+theorem cgOracle_negcurv (base : CgRe.Cfg K) (pa pr : Bool) (a : CgArgs K) (pos g : V) (hip : SymmBilin ip)
+    (hm : Linear (K := K) (hessp pos))
+    (hsa : CgRe.SelfAdj ip (hessp pos)) (hnn : ∀ a, 0 ≤ ip a a)
+    (hmax : 0 < CgRe.maxiterEff base) (hg0 : ip g g ≠ 0) (hcurv : ip g (hessp pos g) < 0) :
+    cgOracle base pa pr ip nrm hessp a pos g = ((ip g g / -ip g (hessp pos g)) • g, 0) := by
   have hb := hip.toBilin
   have hgdef : -g = hessp pos ((none : Option V).getD 0) - g := by
     simp [hm.zero]
   have e1 : ip (-g) (-g) = ip g g := by rw [hb.neg_left, hb.neg_right]; ring
   have e2 : ip (-g) (hessp pos (-g)) = ip g (hessp pos g) := by
     rw [hm.neg, hb.neg_left, hb.neg_right]; ring
-  obtain ⟨res, h1, h2, _, h4, _, _⟩ := CgRe.cgEager_first_step cc ip (hessp pos) g hip hm hsa hnn none hraise hmax
+  obtain ⟨res, h1, h2, _, h4, _, _⟩ := CgRe.cgEager_first_step (cgCfgOf base pa pr a) ip nrm (hessp pos) g hip hm hsa hnn
+    none rfl (by rw [maxiterEff_cgCfgOf]; exact hmax)
     (-g) hgdef (by rw [e1]; exact hg0) (by rw [e2]; exact hcurv)
   unfold cgOracle
   rw [h1]
@@ -176,16 +181,17 @@ theorem trialPos_along (pos g : V) (t : K) (k : Nat) :
     C15 conjugate gradient as inner solver: if any trial step length `sched k · t` (`t = ⟨g,g⟩/|gᵀHg|`, `k < 9`) does not
     increase the energy, the iteration does not abort (status −1) but moves to `pos − (sched k · t)·g` for the first such
     `k` — a strictly positive multiple of `−g`, all earlier trials having strictly higher energy. -/
-theorem ncgEagerStep_negcurv (cc : CgRe.Cfg K) (i : Nat) (s : NSt K V) (hip : SymmBilin ip)
+theorem ncgEagerStep_negcurv (base : CgRe.Cfg K) (pa pr : Bool) (cgnorm : V → K) (i : Nat) (s : NSt K V)
+    (hip : SymmBilin ip)
     (hm : Linear (K := K) (hessp s.pos)) (hsa : CgRe.SelfAdj ip (hessp s.pos)) (hnn : ∀ a, 0 ≤ ip a a)
-    (hraise : cc.raiseNPD = false) (hmax : 0 < CgRe.maxiterEff cc) (hg0 : ip s.g s.g ≠ 0)
+    (hmax : 0 < CgRe.maxiterEff base) (hg0 : ip s.g s.g ≠ 0)
     (hcurv : ip s.g (hessp s.pos s.g) < 0)
     (hex : ∃ k, k < 9 ∧ (f (s.pos - ((sched k : K) * (ip s.g s.g / -ip s.g (hessp s.pos s.g))) • s.g)).1 ≤ s.energy) :
     ∃ k, k < 9 ∧ 0 < (sched k : K) * (ip s.g s.g / -ip s.g (hessp s.pos s.g))
       ∧ (f (s.pos - ((sched k : K) * (ip s.g s.g / -ip s.g (hessp s.pos s.g))) • s.g)).1 ≤ s.energy
       ∧ (∀ k', k' < k →
           s.energy < (f (s.pos - ((sched k' : K) * (ip s.g s.g / -ip s.g (hessp s.pos s.g))) • s.g)).1)
-      ∧ (match ncgEagerStep c f hessp ip gradnorm (cgOracle cc ip hessp) i s with
+      ∧ (match ncgEagerStep c f hessp ip gradnorm cgnorm (cgOracle base pa pr ip nrm hessp) i s with
          | .next s' => s'.pos = s.pos - ((sched k : K) * (ip s.g s.g / -ip s.g (hessp s.pos s.g))) • s.g
              ∧ s'.energy = (f s'.pos).1
          | .stop (.ok r) => r.status = 0
@@ -194,7 +200,7 @@ theorem ncgEagerStep_negcurv (cc : CgRe.Cfg K) (i : Nat) (s : NSt K V) (hip : Sy
   set t : K := ip s.g s.g / -ip s.g (hessp s.pos s.g) with ht
   have hγ : 0 < ip s.g s.g := lt_of_le_of_ne (hnn _) (Ne.symm hg0)
   have htpos : 0 < t := div_pos hγ (by linarith)
-  have hcg := cgOracle_negcurv hessp ip cc s.pos s.g hip hm hsa hnn hraise hmax hg0 hcurv
+  have hcg := cgOracle_negcurv hessp ip nrm base pa pr (eagerCgArgs c cgnorm s) s.pos s.g hip hm hsa hnn hmax hg0 hcurv
   have hrd := resetDir_negcurv hessp ip s.pos s.g hcurv
   have hfirst := lineSearchEager_first f hessp ip s.pos s.energy s.g (t • s.g)
   simp only [hrd, ← ht, trialPos_along] at hfirst
@@ -218,8 +224,8 @@ set_option linter.unusedSectionVars false
 variable {K V : Type} [Field K] [LinearOrder K] [IsStrictOrderedRing K] [AddCommGroup V] [Module K V]
 
 /-- with `_raise_nonposdef = False` the eager CG never raises -/
-theorem eagerLoop_noraise (c : Cfg K) (ip : V → V → K) (mat : V → V) (j : V) (hr : c.raiseNPD = false) :
-    ∀ (fuel i : Nat) (s : St K V), ∃ r, eagerLoop c ip mat j fuel i s = .ok r := by
+theorem eagerLoop_noraise (c : Cfg K) (ip : V → V → K) (nrm : V → K) (mat : V → V) (j : V) (hr : c.raiseNPD = false) :
+    ∀ (fuel i : Nat) (s : St K V), ∃ r, eagerLoop c ip nrm mat j fuel i s = .ok r := by
   intro fuel
   induction fuel with
   | zero => intro i s; exact ⟨_, rfl⟩
@@ -230,13 +236,13 @@ theorem eagerLoop_noraise (c : Cfg K) (ip : V → V → K) (mat : V → V) (j : 
     simp only [hr, Bool.false_eq_true, if_false]
     split_ifs <;> first | exact ⟨_, rfl⟩ | exact ih _ _
 
-theorem cgEager_noraise (c : Cfg K) (ip : V → V → K) (mat : V → V) (j : V) (x0 : Option V)
-    (hr : c.raiseNPD = false) : ∃ r, cgEager c ip mat j x0 = .ok r := by
+theorem cgEager_noraise (c : Cfg K) (ip : V → V → K) (nrm : V → K) (mat : V → V) (j : V) (x0 : Option V)
+    (hr : c.raiseNPD = false) : ∃ r, cgEager c ip nrm mat j x0 = .ok r := by
   unfold cgEager
   simp only []
   split_ifs
   · exact ⟨_, rfl⟩
-  · exact eagerLoop_noraise c ip mat j hr _ _ _
+  · exact eagerLoop_noraise c ip nrm mat j hr _ _ _
 
 end NiftyVerif.CgRe
 
@@ -245,11 +251,13 @@ set_option linter.unusedSectionVars false
 variable {K V : Type} [Field K] [LinearOrder K] [IsStrictOrderedRing K] [AddCommGroup V] [Module K V]
 
 /-- the compiled CG oracle is the eager CG oracle (C15 `static_eq_eager`; `_newton_cg` passes `_raise_nonposdef=False`) -/
-theorem cgOracleStatic_eq (cc : CgRe.Cfg K) (ip : V → V → K) (hessp : V → V → V) (hr : cc.raiseNPD = false)
-    (hmax : 0 < CgRe.maxiterEff cc) : cgOracleStatic cc ip hessp = cgOracle cc ip hessp := by
-  funext pos g
-  obtain ⟨r, hrr⟩ := CgRe.cgEager_noraise cc ip (hessp pos) g none hr
-  have hs := CgRe.static_sim cc ip (hessp pos) g none (Or.inl hmax)
+theorem cgOracleStatic_eq (base : CgRe.Cfg K) (pa pr : Bool) (ip : V → V → K) (nrm : V → K) (hessp : V → V → V)
+    (hmax : 0 < CgRe.maxiterEff base) :
+    cgOracleStatic base pa pr ip nrm hessp = cgOracle base pa pr ip nrm hessp := by
+  funext a pos g
+  obtain ⟨r, hrr⟩ := CgRe.cgEager_noraise (cgCfgOf base pa pr a) ip nrm (hessp pos) g none rfl
+  have hs := CgRe.static_sim (cgCfgOf base pa pr a) ip nrm (hessp pos) g none
+    (Or.inl (by rw [maxiterEff_cgCfgOf]; exact hmax))
   rw [hrr] at hs
   simp only at hs
   unfold cgOracleStatic cgOracle
